@@ -8,8 +8,24 @@ Semantics copied from CPython's documentation:
   * an exception in a Process target does not propagate to the parent; join() returns and
     exitcode is 1.
   * Queue is FIFO.
+  * the function, every task and every result of a Pool cross a process boundary: they are pickled (here with
+    ForkingPickler, as multiprocessing does) and the worker / the parent only ever see the unpickled copies;
+    a manager queue is a proxy: its copies all refer to the one queue.  Process targets and arguments are not
+    pickled (fork start method).
 """
+import pickle
 import random
+from multiprocessing.reduction import ForkingPickler
+
+_MPS = {}       # id -> FakeMP, so that unpickled queue proxies find their queue again
+
+
+def _transport(x):
+    return pickle.loads(bytes(ForkingPickler.dumps(x)))
+
+
+def _queue_proxy(mp_id, idx):
+    return _MPS[mp_id].queues[idx]
 
 
 class Schedule:
@@ -50,6 +66,9 @@ class FakeQueue:
             raise RuntimeError("simulated deadlock: get() on an empty queue with no producer")
         return self.items.pop(0)
 
+    def __reduce__(self):
+        return (_queue_proxy, (id(self.mp), self.mp.queues.index(self)))
+
 
 class FakeManager:
     def __init__(self, mp):
@@ -85,14 +104,16 @@ class FakePool:
         base = self.mp.map_counter
         self.mp.map_counter += len(items)
         out = [None] * len(items)
+        tr = self.mp.transport
         for i in order:
             self.mp.delivery.append(base + i)
-            out[i] = func(items[i])
+            out[i] = tr(tr(func)(tr(items[i])))
         return out
 
     def imap_unordered(self, func, iterable):
         items = list(iterable)
-        results = [func(x) for x in items]
+        tr = self.mp.transport
+        results = [tr(tr(func)(tr(x))) for x in items]
         order = self.mp.schedule.perm(len(items))
         self.mp.imap_orders.append(order)
         for i in order:
@@ -126,8 +147,10 @@ class FakeProcess:
 class FakeMP:
     """Object to assign to `<module>.multiprocessing`."""
 
-    def __init__(self, schedule=None):
+    def __init__(self, schedule=None, pickling=True):
         self.schedule = schedule or Schedule()
+        self.transport = _transport if pickling else (lambda x: x)
+        _MPS[id(self)] = self
         self.queues = []
         self.pool_sizes = []
         self.map_counter = 0
